@@ -197,6 +197,9 @@ type Sess struct {
 	SendTimeouts int
 	Scribble     bool // in-process recipient that modifies what it receives
 	TransportDetails wamp.Dict
+	NetC, NetS   *SimConn // simulated stream connection (rawsocket sessions)
+	WSC, WSS     *FakeWS  // simulated websocket (websocket sessions)
+	selfAttached bool     // the router side is attached by the transport glue
 	awaited      map[int]bool
 	OnRecv     func(s *Sess, m wamp.Message) // optional reactive behaviour, runs in the drainer goroutine
 }
@@ -274,7 +277,9 @@ func (s *Sess) StartAttach(transportDetails wamp.Dict) {
 // Join performs a plain (anonymous/local) join: attach, HELLO, expect WELCOME.
 // Returns false if the router answered with anything else.
 func (s *Sess) Join() bool {
-	s.StartAttach(s.TransportDetails)
+	if !s.selfAttached {
+		s.StartAttach(s.TransportDetails)
+	}
 	d := wamp.Dict{}
 	for k, v := range s.Hello {
 		d[k] = v
